@@ -11,6 +11,7 @@ import (
 	"verifharness/core"
 	"verifharness/hs"
 	"verifharness/pg"
+	"verifharness/tr"
 )
 
 // Extended-protocol reference model. It states what the properties (C06/C07)
@@ -504,13 +505,20 @@ func histString(h []xMsg) string {
 // promptness is inherent: each message's complete reply must be on the wire
 // when the server blocks for more input.
 func judgeHistory(c *core.Ctx, env *hs.Env, h []xMsg, cs any, prop string) (ok bool, run xRun) {
+	return judgeHistoryY(c, env, h, cs, nil)
+}
+
+func judgeHistoryY(c *core.Ctx, env *hs.Env, h []xMsg, cs any, yield func()) (ok bool, run xRun) {
 	sess := &hs.Sess{Progs: map[string]*hs.Prog{}}
 	for _, m := range h {
 		if (m.K == "parse" || m.K == "query") && m.Prog != nil {
 			sess.Progs[m.Query] = m.Prog
 		}
 	}
-	cl := hs.NewClient(env.Dial(sess))
+	conn := tr.NewConn(sess)
+	conn.Yield = yield
+	env.L.DialConn(conn)
+	cl := hs.NewClient(conn)
 	if err := cl.StartupOK("u"); err != nil {
 		c.Violate("startup", "plain startup failed", err.Error(), cs)
 		return false, run
